@@ -1147,7 +1147,14 @@ class AnsiString:
         '''
         if not isinstance(value, AnsiString):
             return False
-        return self._s == value._s and self._fmts == value._fmts
+        if self._s != value._s or self._fmts != value._fmts:
+            return False
+        # Equal markers may still pair up differently (a marker ends the setting object it refers to, not any equal-valued
+        # one): exactly equal also means that the same settings, in the same order, are in effect after every marker
+        return (
+            [list(settings) for _, _, settings in _AnsiSettingsIterator(self._fmts)] ==
+            [list(settings) for _, _, settings in _AnsiSettingsIterator(value._fmts)]
+        )
 
     def __contains__(self, value:Union[str,'AnsiString','AnsiStr',Any]) -> bool:
         ''' Returns True iff the str or the underlying str of an AnsiString is in this AnsiString '''
